@@ -157,6 +157,21 @@ def check_iter(ds, m, tag, passes=2, cycle=True):
             want = (m.vals * 3)[:k]
             if not same_list(got, want):
                 raise Violation(f'cycle-values|{tag}', f'got {fmt(got)}\nexpected {fmt(want)}')
+            if m.cap_items == 'req' and m.keys is not None and not m.taint and len(m.keys) == m.n:
+                # key iteration through the cycle and a map above it goes round as well (the keys repeat)
+                it = None
+                try:
+                    it = iter(cyc.map(lambda x: x).items())
+                    pairs, exc, _ = take(lambda: itertools.islice(it, k), k + 1)
+                finally:
+                    if it is not None and hasattr(it, 'close'):
+                        it.close()
+                wantp = (list(zip(m.keys, m.vals)) * 3)[:k]
+                if exc is not None and not is_documented_refusal(exc):
+                    raise Violation(f'cycle-items-raised|{tag}', describe_exc(exc))
+                if exc is None and not same_list(pairs, wantp):
+                    raise Violation(f'cycle-items|{tag}', f'cycle().map(f).items() yielded {fmt(pairs)}\nexpected '
+                                                          f'{fmt(wantp)}')
 
 
 INT_TYPES = (int, np.int64, np.int32)
